@@ -202,7 +202,7 @@ func envName(caseID, step string) string {
 	return "VERIF_C_" + strings.Map(repl, caseID) + "_" + strings.Map(repl, step)
 }
 
-func handlerStepName(t string) string { return "h_" + t }
+func handlerStepName(t string) string { return t }
 
 // buildSteps creates dag.Step values (scheduler level).
 func buildSteps(spec *CaseSpec, dir string) ([]dag.Step, map[string]*dag.Step, []*StepSpec) {
